@@ -16,7 +16,9 @@
     dumbbell `pos[-2] -= db_vect; pos[-1] += db_vect`, `scale=True` converting `db_vect` as a vector;
   * the dispatcher `point` with its assertions;
   * the tolerance argument as passed by the caller: `atol=None` (and only `None`) is replaced by the
-    default (`effAtol`); the entry points `vacancyC` … `pointC` take `Option K`;
+    default (`effAtol`); the entry points `vacancyC` … `pointC` take `Option K` and the default as a
+    parameter (it depends on the working length unit: `uc.set_in_units(0.01, 'angstrom')`);
+  * the closing refusal of a defect atom type below 1 (`guardAtype`) at the same entry points;
   * the per-type `masses` of the system (handed on to the result, padded like the symbols).
 -/
 import Atomman.Prelude
@@ -262,17 +264,34 @@ def effAtol (dflt : K) : Option K → K
   | none => dflt
   | some a => a
 
+/-- atom types start at 1 (`Atoms.natypes`: 'atype values < 1 not allowed'): is the type requested for
+    the defect atom (the `atype` keyword; absent = default / unchanged) one a system can have? -/
+def Kw.atypeOk {K : Type} (kw : Kw K) : Bool :=
+  match kw.atype with
+  | some t => decide (1 ≤ t)
+  | none => true
+
+/-- the last statement of `interstitial` / `substitutional` / `dumbbell`:
+    `if d_system.atoms.atype[-1] < 1: raise ValueError(...)` — a request for a type below 1 is refused
+    instead of handing back a system that `Atoms` itself rejects.  It comes after everything else, so
+    any earlier refusal wins (all of them are `ValueError` too). -/
+def guardAtype (kw : Kw K) : Except Err (Sys K) → Except Err (Sys K)
+  | .error e => .error e
+  | .ok s' => if kw.atypeOk then .ok s' else .error .value
+
 def vacancyC (dflt : K) (s : Sys K) (pos : Option (V3 K)) (ptd : Option Int) (scale : Bool) (atol : Option K) :
     Except Err (Sys K) := vacancy s pos ptd scale (effAtol dflt atol)
 
 def interstitialC (dflt : K) (s : Sys K) (pos : V3 K) (scale : Bool) (atol : Option K) (kw : Kw K) :
-    Except Err (Sys K) := interstitial s pos scale (effAtol dflt atol) kw
+    Except Err (Sys K) := guardAtype kw (interstitial s pos scale (effAtol dflt atol) kw)
 
 def substitutionalC (dflt : K) (s : Sys K) (pos : Option (V3 K)) (ptd : Option Int) (scale : Bool)
-    (atol : Option K) (kw : Kw K) : Except Err (Sys K) := substitutional s pos ptd scale (effAtol dflt atol) kw
+    (atol : Option K) (kw : Kw K) : Except Err (Sys K) :=
+  guardAtype kw (substitutional s pos ptd scale (effAtol dflt atol) kw)
 
 def dumbbellC (dflt : K) (s : Sys K) (pos : Option (V3 K)) (ptd : Option Int) (db : V3 K) (scale : Bool)
-    (atol : Option K) (kw : Kw K) : Except Err (Sys K) := dumbbell s pos ptd db scale (effAtol dflt atol) kw
+    (atol : Option K) (kw : Kw K) : Except Err (Sys K) :=
+  guardAtype kw (dumbbell s pos ptd db scale (effAtol dflt atol) kw)
 
 /-- the dispatcher as coded: `atol` is handed on as given (`None` stays `None`) and every generator
     applies the default itself. -/
